@@ -68,8 +68,9 @@ theorem fText_spec {s0 s : PState} (sp : Span) (parts : List Sx) (hi : InvB 2 c 
   · rw [fPieces_ok]
     dsimp only
     split
-    · rename_i k esp he
-      pfail hi, (hl _ _ _ _ _ he)
+    · rename_i k j a b he
+      obtain ⟨hf, _⟩ := hl _ _ _ _ _ _ _ he
+      exact fail_ok _ hi (spanOk_in2 hsp (pieceOf_spanOk _ j) (hf rfl))
     · rw [addNode_k]
       exact ⟨hi.add hsp, by simpa using hm, by simp; omega, trivial⟩
   · exact ⟨hi, by omega, hn, trivial⟩
